@@ -58,6 +58,8 @@ class Ctx:
         self.env["ERG_PATH"] = self.erg_home
         self.scratch = None
         self.t0 = time.time()
+        # evidence/replays of runs against another tree (mutant testing) must not clobber /verif's own
+        self.out_dir = VERIF if self.repo == "/repo" else self.work
 
     def rng(self, salt=""):
         return random.Random(f"{self.pid}:{self.seed}:{salt}")
@@ -375,7 +377,7 @@ def finish(ctx: Ctx, rep: Report, replay_mode=False):
         if sig in seen and len(replay_paths) >= 5:
             continue
         seen.add(sig)
-        rdir = os.path.join(VERIF, "replays", ctx.pid)
+        rdir = os.path.join(ctx.out_dir, "replays", ctx.pid)
         os.makedirs(rdir, exist_ok=True)
         path = os.path.join(rdir, sha([sig, case]) + ".json")
         with open(path, "w") as f:
@@ -429,8 +431,8 @@ def write_evidence(ctx, rep, n_viol, reproduced_sigs, inconclusive_run):
         "verdict": "inconclusive" if inconclusive_run else ("violated" if n_viol else "held_on_observed"),
         "repo": ctx.repo,
     }
-    os.makedirs(os.path.join(VERIF, "evidence"), exist_ok=True)
-    path = os.path.join(VERIF, "evidence", f"{ctx.pid}.json")
+    os.makedirs(os.path.join(ctx.out_dir, "evidence"), exist_ok=True)
+    path = os.path.join(ctx.out_dir, "evidence", f"{ctx.pid}.json")
     tmp = path + f".tmp{os.getpid()}"
     with open(tmp, "w") as f:
         json.dump(ev, f, indent=1, default=str)
